@@ -155,6 +155,19 @@ def plan(tier, seed, args):
                 c = {"workload": wl, "wparams": wp, "scheds": scheds, "group": variant}
                 if wl != "e2e" and i % 4 == 0:
                     c["verify_replay"] = True
+                if wl != "e2e" and i % 3 == 1:
+                    # call history x schedule: the same entry points were used earlier in this
+                    # process on another problem size with a (mostly larger) team, as a long-lived
+                    # interpreter does after omp_set_num_threads / between molecules; C-level
+                    # state that survives a call (static scratch, memoised tables) shows here
+                    r2 = Rng(derive(seed, PROP, wl, variant, i, "pre"))
+                    pre = []
+                    for _ in range(r2.randint(1, 2)):
+                        ps = draw_sched(r2, "sim")
+                        ps["nthreads"] = r2.choice([8, 16, 32, 61, ps["nthreads"]])
+                        ps.pop("team_limit", None)
+                        pre.append({"wparams": draw(r2), "sched": ps})
+                    c["pre_runs"] = pre
                 cases.append(c)
     # long cases first
     order = {"e2e": 0, "nldf_gen": 1, "nldf_grad": 2}
@@ -347,15 +360,35 @@ def minimise_trace_case(spec):
     return {"ok": True, "segs": segs, "chunks": chunks, "from_segments": n0, "attempts": attempts[0], "wall_s": round(time.time() - t0, 1)}
 
 
+_worker_log = []
+
+
 def run_case(spec):
     if spec.get("_mintrace"):
         return minimise_trace_case(spec)
+    res = _run_case(spec)
+    if not spec.get("replay_trace") and len(_worker_log) < 64:
+        _worker_log.append({k: spec[k] for k in ("workload", "wparams", "scheds", "group", "pre_runs") if k in spec})
+    return res
+
+
+def _run_case(spec):
     wl, wp = spec["workload"], spec["wparams"]
     _sim.reset_regions()
     dg = Digest()
     stats = Counter()
     viol = []
     ref_sched = dict(REF_SCHED)
+    for pr in spec.get("pre_runs", []):
+        # earlier use of the same entry points in this process (outputs are not judged here:
+        # every instance is judged in its own case); a failure of such a run is not an error
+        try:
+            _o, st_p, _e, _t = run_workload(wl, pr["wparams"], pr["sched"])
+            if st_p["error"]:
+                return {"harness_error": "pre-run failed in the simulator: %s (%s)" % (st_p["error"], st_p["error_msg"])} if st_p["error"] not in ("deadlock", "heap_overrun") else {"digest": dg.hex(), "nontrivial": False, "violations": [], "stats": dict(stats), "sample": None, "_abort": True}
+            stats["earlier_calls_in_process"] += 1
+        except Exception:
+            pass
     ref, st0, exc0, _ = run_workload(wl, wp, ref_sched)
     if exc0 is not None or st0["error"]:
         # the workload itself is broken for these parameters: harness problem, not a verdict
@@ -398,6 +431,12 @@ def run_case(spec):
         dg.add("sched", "%x" % st["trace_hash"])
         multi += st["regions_multi"]
         rp = {"property": PROP, "engine": "simgomp", "case": {"workload": wl, "wparams": wp, "scheds": [sched], "group": spec["group"]}}
+        if spec.get("pre_runs"):
+            rp["case"]["pre_runs"] = spec["pre_runs"]
+        if _worker_log:
+            # C-level state that survives calls would make this run depend on what the worker
+            # executed before; the replay falls back to re-running these first
+            rp["earlier_cases_in_worker"] = list(_worker_log)
         if tr is not None and not tr["overflow"] and len(tr["segs"]) <= 300000:
             rp["trace"] = tr
         if st["error"]:
@@ -439,7 +478,14 @@ def replay(rp):
     spec = dict(rp["case"])
     if "trace" in rp and rp.get("use_trace", True):
         spec["replay_trace"] = rp["trace"]
-    return run_case(spec)
+    res = run_case(spec)
+    want = rp.get("violation", {}).get("key")
+    if rp.get("earlier_cases_in_worker") and not any(v["key"] == want for v in res.get("violations", [])):
+        # not reproduced from a fresh process: repeat with the calls the worker had made before
+        for c in rp["earlier_cases_in_worker"]:
+            _run_case(dict(c))
+        res = run_case(spec)
+    return res
 
 
 def on_crash(spec, status):
@@ -611,6 +657,7 @@ def coverage(done, tier):
             "runs_with_access_preemption": int(tot["runs_with_access_preemption"]),
             "runs_with_chunk_shuffle": int(tot["runs_with_chunk_shuffle"]),
             "runs_with_team_below_max_threads": int(tot["runs_with_team_below_max_threads"]),
+            "earlier_calls_with_other_team_and_size_in_same_process": int(tot["earlier_calls_in_process"]),
         },
         "team_size_histogram": teams,
         "strategy_histogram": strats,
